@@ -135,7 +135,7 @@ type spec struct {
 var ops = []string{"Select", "SelectDone", "SelectRowid", "IndexedSelect", "IndexedSelectEq", "PKSelect", "PKSelect-wr", "Columns", "Select-wr", "IndexedSelect-wr"}
 var exits = []string{"normal", "normal", "stop", "error-column", "error-table", "error-index", "fault", "panic"}
 var sideKinds = []string{"commit-attempt", "commit-attempt", "other-file-open-read-close", "peer-read", "peer-hold", "peer-release",
-	"same-process-open", "same-process-read", "same-process-close", "same-process-open-close", "probe"}
+	"same-process-open", "same-process-read", "same-process-close", "same-process-open-close", "probe", "same-handle-nested-call"}
 
 func TestC06Held(t *testing.T) {
 	vt.Exec(t, vt.Check[spec]{
@@ -269,6 +269,7 @@ func run(r *vt.Run, t vt.TB, s spec) {
 			violation("writer-blocked-after-return", "%s: a SQLite writer still cannot commit: %v", where, err)
 		}
 	}
+	curKind, nesting := "", false
 	runSide := func(k, where string) {
 		sideRan++
 		classes["side:"+k] = true
@@ -322,6 +323,18 @@ func run(r *vt.Run, t vt.TB, s spec) {
 					lockLost = "Close"
 				}
 			}
+		case "same-handle-nested-call":
+			// a select on the same handle from inside its own row callback:
+			// refused or served, the lock of the outer call has to stay
+			if curKind == "callback" && inOp {
+				nesting = true
+				func() {
+					defer func() { recover() }()
+					hl.SelectRowid("t", 1, "a")
+				}()
+				nesting = false
+				classes["side:nested-call-inside-callback"] = true
+			}
 		case "same-process-open-close":
 			if h, err := sqlittle.Open(path); err == nil {
 				h.Close()
@@ -332,6 +345,7 @@ func run(r *vt.Run, t vt.TB, s spec) {
 		}
 	}
 	atEvent := func(kind string) {
+		curKind = kind
 		if inOp && (kind == "page" || kind == "callback") {
 			checkHeld(fmt.Sprintf("%s event %d", kind, ev))
 		}
@@ -346,6 +360,9 @@ func run(r *vt.Run, t vt.TB, s spec) {
 		ev++
 	}
 	trace.Hook = func(e pagers.Event, _ int) {
+		if nesting {
+			return // events of the nested call itself
+		}
 		switch e.Kind {
 		case "lock":
 			inOp = true
